@@ -89,8 +89,8 @@ unsigned vp_ev_n[8];
 #ifdef VP_NATIVE
 extern int vp_native_pos(void);
 static unsigned vp_ctx_ev0; static int vp_ctx_pos0;
-#define VP_CTX_BEGIN(t) do { vp_ctx_ev0 = vp_ev_n[t]; vp_ctx_pos0 = vp_native_pos(); } while (0)
-#define VP_CTX_END(t, name, done, drawn) printf("CTX %d %s %u %d %d %d %d\n", t, name, vp_ev_n[t] - vp_ctx_ev0, vp_native_pos() - vp_ctx_pos0, vp_blk_kind[t], done, drawn)
+#define VP_CTX_BEGIN(t) do { vp_ctx_ev0 = vp_ev_n[t]; vp_ctx_pos0 = vp_native_pos(); printf("BEGIN %d\n", t); fflush(stdout); } while (0)
+#define VP_CTX_END(t, name, done, drawn) do { printf("CTX %d %s %u %d %d %d %d\n", t, name, vp_ev_n[t] - vp_ctx_ev0, vp_native_pos() - vp_ctx_pos0, vp_blk_kind[t], done, drawn); fflush(stdout); } while (0)
 #define VP_CTX_SKIP(t, drawn) printf("SKIP %d %d\n", t, drawn)
 #else
 #define VP_CTX_BEGIN(t) ((void)0)
